@@ -318,7 +318,7 @@ func c06Scenarios(tier string) []engine.Scenario {
 func init() {
 	engine.Register(&engine.Property{
 		ID: "C06", Level: "model_checking",
-		Rule:        "E1 over cookie-holder subsets x {recover-end, UpdatePassword} x new-password classes (equal, last-byte, case, non-ASCII, 72 and 73 bytes, one char); probe battery on clones of every distinct state after a completed change (real logins, real cookie requests, stored-field inspection, token replay, bystander); classes = change kinds and probe kinds",
+		Rule: "E1 over cookie-holder subsets x {recover-end, UpdatePassword} x new-password classes (equal, last-byte, case, non-ASCII, 72 and 73 bytes, one char); probe battery on clones of every distinct state after a completed change (real logins, real cookie requests, stored-field inspection, token replay, bystander); classes = change kinds and probe kinds",
 		Units: func(tier string) []engine.Unit {
 			scs := c06Scenarios(tier)
 			return e1Units(append(scs, configVariants(scs[:1], tier, "err500", "nil-state", "json", "app-recover-hook")...))
